@@ -44,6 +44,11 @@ RULE = ("random region tables (1..4 dozen rows; chromosome names 1..22/X/Y/M/MT,
         "the Lean model reading ITS OWN spelled lines, byte for byte [tab_spell]; (g) chromosome labels (ASCII; any "
         "prefix case, alt/random/Un, leading zeros, empty) -> sort key of the real sorter_chrom vs the hand model vs the "
         "function regenerated from the source text [src_key]; regions -> to_label -> from_label likewise [src_label]. "
+        "(h) label texts (valid chr:start-end with/without gene part and trailing newline, open-ended chr:start- / chr:-end, "
+        "no chromosome, near misses with one character replaced/inserted/removed, random strings over the label alphabet) "
+        "-> re_label.match(text).groups() and from_label(text, keep_gene) of the real code (value or ValueError) vs the "
+        "pattern AST regenerated from the source under the Lean backtracking semantics, the hand parser and the full "
+        "from_label model [lab_parse]. "
         "non-trivial = table has >= 2 rows on >= 2 chromosomes or an extra column; distinct by hash of the case")
 EXHAUSTIVE = {"quick": False, "thorough": False}
 ASSUMPTIONS = [
@@ -60,7 +65,7 @@ ASSUMPTIONS = [
     "read_auto returns for a VCF is judged by the harness against the regions it wrote (coordinates, alleles, order); "
     "SEG renaming options are tied by handing the Lean reader the same file with the names already replaced",
 ]
-TRUSTED_EXTRA = ["pandas read_csv / to_csv tokenising, dtype inference and NA spellings", "Python re for the sniff patterns and re_label",
+TRUSTED_EXTRA = ["pandas read_csv / to_csv tokenising, dtype inference and NA spellings", "Python re for the sniff patterns; for re_label only Python's pattern PARSER (re._parser, read by harness/extractors/regex_label.py) and the backtracking semantics of Model/FormatsExt5Label.lean are trusted, and the latter is compared with re_label.match on every run (ASCII texts; \\s on the control characters 0x1c-0x1f is outside)",
                  "Python/pandas decimal printing of ints; C/Python '%.6g' (compared byte for byte with the Lean model on every run)",
                  "harness/extractors/exprs_chromsort.py: reading of the Python str subset (Model/PyStr.lean primitives)", "pandas stable multi-key mergesort on (tuple key, start, end)"]
 
